@@ -22,6 +22,16 @@ var Root = func() string {
 	return "/verif"
 }()
 
+// OutRoot is where evidence and replay files are written (VERIF_OUT; default Root). Parallel runs of
+// the checks against scratch copies of the repository (pseedrun.sh) each get their own.
+var OutRoot = func() string {
+	if r := os.Getenv("VERIF_OUT"); r != "" {
+		return r
+	}
+	return Root
+}()
+
+
 // Violation is one property violation found by a check.
 type Violation struct {
 	// Key identifies *what fails* (kind | library call site | minimal input feature); it is what
@@ -151,7 +161,7 @@ func (r *Result) Finish() int {
 		}
 		unlisted++
 		h := sha1.Sum([]byte(k))
-		dir := filepath.Join(Root, "replays")
+		dir := filepath.Join(OutRoot, "replays")
 		os.MkdirAll(dir, 0o755)
 		path := filepath.Join(dir, fmt.Sprintf("%s-%s.json", r.Property, hex.EncodeToString(h[:6])))
 		doc := map[string]interface{}{"property": r.Property, "key": k, "what": v.What, "replay": v.Replay,
@@ -166,7 +176,7 @@ func (r *Result) Finish() int {
 			}
 			fmt.Printf("  key=%s\n  what=%s\n", k, what)
 		} else if unlisted == 41 {
-			fmt.Printf("  ... further violations are listed in %s/replays/ only\n", Root)
+			fmt.Printf("  ... further violations are listed in %s/replays/ only\n", OutRoot)
 		}
 	}
 	r.writeEvidence(matched, unlisted)
@@ -214,7 +224,7 @@ func (r *Result) writeEvidence(matched []string, unlisted int) {
 		"violations":  unlisted,
 	}
 	b, _ := json.MarshalIndent(ev, "", " ")
-	dir := filepath.Join(Root, "evidence")
+	dir := filepath.Join(OutRoot, "evidence")
 	os.MkdirAll(dir, 0o755)
 	if err := os.WriteFile(filepath.Join(dir, r.Property+".json"), b, 0o644); err != nil {
 		fmt.Fprintln(os.Stderr, "evidence:", err)
@@ -239,7 +249,7 @@ func Hang(property, tier, key, what string, replay interface{}) {
 		}
 	}
 	h := sha1.Sum([]byte(key))
-	dir := filepath.Join(Root, "replays")
+	dir := filepath.Join(OutRoot, "replays")
 	os.MkdirAll(dir, 0o755)
 	path := filepath.Join(dir, fmt.Sprintf("%s-%s.json", property, hex.EncodeToString(h[:6])))
 	doc := map[string]interface{}{"property": property, "key": key, "what": what, "replay": replay, "occurrences": 1, "tier": tier}
@@ -252,8 +262,8 @@ func Hang(property, tier, key, what string, replay interface{}) {
 		"coverage": map[string]interface{}{"evaluations": 1, "distinct_nontrivial": 1, "exhaustive": false,
 			"rule": "the check was ended by its watchdog: one request did not return", "samples": []interface{}{replay}}}
 	eb, _ := json.MarshalIndent(ev, "", " ")
-	os.MkdirAll(filepath.Join(Root, "evidence"), 0o755)
-	os.WriteFile(filepath.Join(Root, "evidence", property+".json"), eb, 0o644)
+	os.MkdirAll(filepath.Join(OutRoot, "evidence"), 0o755)
+	os.WriteFile(filepath.Join(OutRoot, "evidence", property+".json"), eb, 0o644)
 	fmt.Printf("%s %s: ended by the watchdog, exhaustive=false violations=1\n", property, tier)
 	os.Exit(1)
 }
